@@ -28,7 +28,6 @@ import (
 	"math"
 	"sort"
 
-	"github.com/cockroachdb/pebble/verifharness/evid"
 	"pgregory.net/rapid"
 )
 
@@ -49,12 +48,11 @@ const (
 	kindDeleteSized   = 23
 )
 
-// Signatures of candidate findings (see NOTES.md).
-const (
-	sigNoTerminator  = "newfile5-without-custom-fields-has-no-terminator"
-	sigHugeLength    = "decode-oversized-length-prefix-allocates-or-panics"
-	sigDroppedFields = "decoded-invalid-table-metadata-dropped-on-reencode"
-)
+// Signature of the open candidate finding (see NOTES.md). The findings
+// "newfile5-without-custom-fields-has-no-terminator" and
+// "decode-oversized-length-prefix-allocates-or-panics" are repaired
+// (386163c74, d3b896f7c); their classes are generated and checked.
+const sigDepthNoRefs = "decoded-blobref-depth-without-references-dropped-on-reencode"
 
 var pointKinds = []uint8{kindDelete, kindSet, kindMerge, kindSingleDelete, kindRangeDelete, kindSetWithDelete, kindDeleteSized}
 
@@ -85,12 +83,10 @@ type model struct {
 	backings map[uint64]*mBacking
 	unused   []uint64
 	blobs    map[uint64]*mBlob
-	avoidF1  bool
 }
 
 func newModel() *model {
-	return &model{nextNum: 1, nextSeq: 1, tables: map[uint64]*mTable{}, backings: map[uint64]*mBacking{}, blobs: map[uint64]*mBlob{},
-		avoidF1: evid.FindingActive("C23", sigNoTerminator)}
+	return &model{nextNum: 1, nextSeq: 1, tables: map[uint64]*mTable{}, backings: map[uint64]*mBacking{}, blobs: map[uint64]*mBlob{}}
 }
 
 func (m *model) fresh() uint64 { n := m.nextNum; m.nextNum++; return n }
@@ -269,14 +265,6 @@ func (m *model) genTableSpec(t *rapid.T, lo, hi int, seqLo, seqHi uint64) TableS
 	return s
 }
 
-// fixKnown adjusts a finished spec so that it stays outside the classes of
-// active known findings.
-func (m *model) fixKnown(s *TableSpec) {
-	if m.avoidF1 && s.classNoCustomRangeKey() {
-		s.CreationTime = 1700000000 + int64(s.Num)
-	}
-}
-
 type editGen struct {
 	m    *model
 	t    *rapid.T
@@ -316,7 +304,6 @@ func (g *editGen) delTable(n uint64) *mTable {
 }
 
 func (g *editGen) addTable(level int, s TableSpec) {
-	g.m.fixKnown(&s)
 	mt := &mTable{spec: s, level: level}
 	mt.visited[level] = true
 	g.m.tables[s.Num] = mt
